@@ -19,7 +19,7 @@ UNVERIFIED = [
     "a parse that returns has counted every non-EOF token once and is within the limit "
     "(advance_lexer and the TOKLIM clauses of every Parser method); that a document within the limit "
     "is never rejected for it follows from advance_lexer's raise condition but is not stated as a clause",
-    "Lexer.advance / Lexer.lookahead (linked token chain): assumed contract",
+    "Lexer.advance / Lexer.lookahead: verified relative to the (assumed) invariant of the linked token chain",
 ]
 TRUSTED = []
 ASSUMPTIONS = [A["A1"], A["A2"], A["A3"], A["A4"], A["A8"], A["ALIAS"], A["ENGINE"]]
